@@ -44,6 +44,7 @@ void COSyncInit(CO_SYNC *sync, struct CO_NODE_T *node)
     }
     for (i = 0; i < CO_RPDO_N; i++) {
         sync->RPdo[i]  = (CO_RPDO *)0;
+        sync->RNew[i]  = 0;
     }
 }
 
@@ -78,6 +79,7 @@ void COSyncRemove (CO_SYNC *sync, uint16_t num, uint8_t msgType)
     /* receive pdo */
     if (msgType == CO_SYNC_FLG_RX) {
         sync->RPdo[num]  = 0;
+        sync->RNew[num]  = 0;
     }
 }
 
@@ -87,11 +89,13 @@ void COSyncRx(CO_SYNC *sync, CO_IF_FRM *frm)
     int16_t n;
 
     for (i = 0; i < CO_RPDO_N; i++) {
-        if (sync->RPdo[i]->Identifier == frm->Identifier) {
+        if ((sync->RPdo[i]             != 0              ) &&
+            (sync->RPdo[i]->Identifier == frm->Identifier)) {
             for (n=0; n < 8; n++) {
                 sync->RFrm[i].Data[n] = frm->Data[n];
             }
             sync->RFrm[i].DLC = frm->DLC;
+            sync->RNew[i]     = 1;
             break;
         }
     }
@@ -141,8 +145,13 @@ void COSyncHandler (CO_SYNC *sync)
         }
     }
 
+    if ((sync->Node->Nmt.Allowed & CO_PDO_ALLOWED) == 0) {
+        return;
+    }
     for (i = 0; i < CO_RPDO_N; i++) {
-        if (sync->RPdo[i] != 0) {
+        if ((sync->RPdo[i] != 0) &&
+            (sync->RNew[i] != 0)) {
+            sync->RNew[i] = 0;
             CORPdoWrite(sync->RPdo[i], &sync->RFrm[i]);
             COPdoSyncUpdate(sync->RPdo[i]);
         }
